@@ -272,3 +272,29 @@ Qed.
 (* over every registration history: every registered resource is enumerated exactly once *)
 Lemma reachable_entries_nodup : forall ops, NoDup (map fst (entries (fst (run (NSite [] []) ops)))).
 Proof. intro ops. apply entries_nodup. apply run_wf. reflexivity. Qed.
+
+(* ------------------------------------------------------------------ add at any address takes effect for the next request *)
+Lemma site_at_entry : forall addr n rs ss p r, site_at addr n = Some (NSite rs ss) -> In (p, r) rs -> In (addr ++ [p], r) (entries n).
+Proof.
+  induction addr as [|k addr IH]; intros n rs ss p r H Hin.
+  - destruct n as [rs0 ss0 | id]; [|discriminate]. inversion H; subst. rewrite entries_site. apply in_or_app. left.
+    apply in_map_iff. exists (p, r). auto.
+  - destruct n as [rs0 ss0 | id]; [|discriminate]. cbn [site_at] in H. destruct (dict_get_opt ss0 k) as [c|] eqn:Eg; [|discriminate].
+    rewrite entries_site. apply in_or_app. right. unfold sub_entries. apply in_flat_map. exists (k, c). split; [apply dict_get_opt_In; exact Eg|].
+    cbn [fst snd]. apply in_map_iff. exists (addr ++ [p], r). split; [reflexivity | apply (IH c rs ss p r H Hin)].
+Qed.
+Lemma request_after_add_nested : forall root addr p id d root' pipe q,
+  step root (OAdd addr p (TRes (RHandler id d))) = (root', RDone) -> node_wf root' = true -> node_sep false root' = true ->
+  let P := chain_path (addr ++ [p]) in
+  request pipe root' (new_request P None) q = RHandled id [] (Some P) (Ok (uri_segments P)).
+Proof.
+  intros root addr p id d root' pipe q H Hw Hsep P. cbn [step] in H.
+  destruct (update_at addr (fun s => add_resource s p (thing_child (TRes (RHandler id d)))) root) as [[n'|e]|] eqn:E; cbn [apply_update] in H; inversion H; subst.
+  destruct (site_at_update_at _ _ _ _ E) as [rs [ss [s' [H1 [H2 H3]]]]]. cbn [thing_child] in H2. rewrite add_resource_res in H2. inversion H2; subst.
+  cbn [resources subsites] in H3.
+  assert (Hin : In (p, RHandler id d) (dict_set rs p (RHandler id d))).
+  { apply dict_get_opt_In. rewrite dict_get_set, path_eqb_refl. reflexivity. }
+  pose proof (site_at_entry addr root' _ _ p _ H3 Hin) as He.
+  destruct (entry_routable root' false _ _ Hw Hsep He) as [HR _].
+  apply (request_routed pipe root' (new_request P None) q id d eq_refl HR).
+Qed.
